@@ -54,6 +54,8 @@ pub struct ProgGen<'c, 'd> {
     counter: usize,
     used: BTreeSet<String>,
     elim_depth: usize,
+    /// Set just before `annotation` is called for a definition that should use an alias.
+    prefer_alias: bool,
     pub top_fuel: usize,
 }
 
@@ -79,7 +81,7 @@ pub fn boundary_literal(ch: &mut Ch) -> BigInt {
 
 impl<'c, 'd> ProgGen<'c, 'd> {
     pub fn new(ch: &'c mut Ch<'d>, cfg: ProgCfg) -> Self {
-        ProgGen { ch, cfg, names: Names::default(), nbe: Nbe::new(200_000), scope: vec![], env: None, features: BTreeSet::new(), counter: 0, used: BTreeSet::new(), elim_depth: 0, top_fuel: 0 }
+        ProgGen { ch, cfg, names: Names::default(), nbe: Nbe::new(200_000), scope: vec![], env: None, features: BTreeSet::new(), counter: 0, used: BTreeSet::new(), elim_depth: 0, prefer_alias: false, top_fuel: 0 }
     }
 
     /// A binder name that is used nowhere else in this program (so that flattening nested groups
@@ -137,12 +139,13 @@ impl<'c, 'd> ProgGen<'c, 'd> {
     fn annotation(&mut self, ty: &Rc<V>) -> Option<S> {
         // Use a type alias that is in scope (a definition of type `type` whose value is this type)
         // now and then, so that types mention variables of definition groups.
-        if self.ch.chance(1, 3) {
+        let prefer = std::mem::take(&mut self.prefer_alias);
+        if prefer || self.ch.chance(1, 3) {
             let aliases: Vec<Entry> = self.scope.iter().filter(|e| e.is_def && matches!(&*e.ty, V::Type)).cloned().collect();
             for e in aliases.iter().rev().take(4) {
                 let env = self.env.clone();
                 if let Ok(v) = self.nbe.eval(&K::Var(e.id), &env) {
-                    if !matches!(&*v, V::Var(_)) && self.conv(&v, ty) {
+                    if !matches!(&*v, V::Var(i) if *i == e.id) && self.conv(&v, ty) {
                         self.features.insert("annotation written with a type alias of a group");
                         return Some(sast::var(&e.name));
                     }
@@ -174,6 +177,12 @@ impl<'c, 'd> ProgGen<'c, 'd> {
                 _ => {}
             }
         }
+        // Under type variables there is little else to generate: name the goal type there.
+        if matches!(&**goal, V::Var(_) | V::App(..)) && self.ch.chance(1, 2) {
+            if let Some(s) = self.alias_group(goal, fuel) {
+                return Some(s);
+            }
+        }
         // Generic wrappers, applicable to every goal.
         if fuel >= 2 {
             match self.ch.pick(14) {
@@ -196,6 +205,11 @@ impl<'c, 'd> ProgGen<'c, 'd> {
                     self.scope.pop();
                     self.features.insert("immediately applied lambda");
                     return Some(sast::app(sast::lam(&name, Some(ann), body?), arg));
+                }
+                6 if !matches!(&**goal, V::Type) => {
+                    if let Some(s) = self.alias_group(goal, fuel - 1) {
+                        return Some(s);
+                    }
                 }
                 4 | 5 => {
                     if let Some(s) = self.gen_elim(goal, fuel - 1) {
@@ -444,21 +458,43 @@ impl<'c, 'd> ProgGen<'c, 'd> {
         let mut defs: Vec<Def> = vec![];
         let mut kdefs: Vec<(Id, K, K)> = vec![];
         let mut ok = true;
+        // The value of a type alias created in this group that no later definition has used yet.
+        let mut pending_alias: Option<Rc<V>> = None;
         for _ in 0..n {
-            let kind = self.ch.pick(12);
+            let mut kind = self.ch.pick(14);
+            if pending_alias.is_some() && self.ch.chance(2, 3) {
+                kind = 100;
+            }
             let made: Option<Vec<(String, S, S)>> = match kind {
+                100 => {
+                    // A definition whose annotation is written with the alias just made.
+                    let ty = pending_alias.take().unwrap();
+                    self.prefer_alias = true;
+                    let d = self.def_of_type(ty, fuel - 1).map(|d| vec![d]);
+                    self.prefer_alias = false;
+                    d
+                }
                 0 | 1 => self.def_of_type(Rc::new(V::Int), fuel - 1).map(|d| vec![d]),
                 2 => self.def_of_type(Rc::new(V::Bool), fuel - 1).map(|d| vec![d]),
                 3 | 4 => {
                     let t = self.function_type(fuel - 1);
                     t.and_then(|t| self.def_of_type(t, fuel - 1)).map(|d| vec![d])
                 }
-                5 => {
+                5 | 12 => {
                     // A type alias; mostly of a type that later definitions are likely to have.
-                    if self.ch.chance(2, 3) {
+                    let which = self.ch.pick(6);
+                    if which < 3 {
                         let t = [S::Int, S::Bool, sast::arrow(S::Int, S::Int), S::Int][self.ch.pick(4)].clone();
                         let name = self.fresh_name();
                         Some(vec![(name, S::Type, t)])
+                    } else if which < 5 {
+                        // An alias of the goal type or of the type of an enclosing parameter, so
+                        // that the alias (and a type written with it) mentions outer variables.
+                        let params: Vec<Rc<V>> = self.scope.iter().filter(|e| !e.is_def).map(|e| e.ty.clone()).collect();
+                        let ty = if params.is_empty() || self.ch.chance(1, 2) { goal.clone() } else { params[self.ch.pick(params.len())].clone() };
+                        let name = self.fresh_name();
+                        self.features.insert("type alias of the goal type or of a parameter type");
+                        self.quote_s(&ty).map(|t| vec![(name, S::Type, t)])
                     } else {
                         self.def_of_type(Rc::new(V::Type), fuel - 1).map(|d| vec![d])
                     }
@@ -469,6 +505,9 @@ impl<'c, 'd> ProgGen<'c, 'd> {
                 }
                 9 => self.polymorphic_def(fuel - 1).map(|d| vec![d]),
                 10 if self.cfg.forward_aliases => self.forward_alias_defs(),
+                // A definition of the goal type: a candidate for the body of the group, whose
+                // type is then written with whatever alias the annotation picked.
+                11 | 13 if !matches!(&**goal, V::Type) => self.def_of_type(goal.clone(), fuel - 1).map(|d| vec![d]),
                 _ => self.def_of_type(Rc::new(V::Int), fuel - 1).map(|d| vec![d]),
             };
             // A definition that could not be generated is simply left out.
@@ -503,6 +542,10 @@ impl<'c, 'd> ProgGen<'c, 'd> {
                     ok = false;
                     break;
                 };
+                if matches!(kind, 5 | 12) && matches!(&*tv, V::Type) {
+                    let env = self.env.clone();
+                    pending_alias = self.nbe.eval(&K::Var(id), &env).ok().filter(|v| !matches!(&**v, V::Var(i) if *i == id));
+                }
                 self.scope.push(Entry { id, name: name.clone(), ty: tv, is_def: true });
                 defs.push(Def { name, ann: Some(ann), def });
             }
@@ -510,7 +553,24 @@ impl<'c, 'd> ProgGen<'c, 'd> {
                 break;
             }
         }
-        let body = if ok { self.make(goal, fuel - 1) } else { None };
+        let mut body = None;
+        if ok && self.scope.len() > base && self.ch.chance(1, 3) {
+            // A definition of the group itself as the body, so that the type of the group is the
+            // annotation of that definition (which may be written with an alias of the group).
+            let cands: Vec<Entry> = self.scope[base..].to_vec();
+            let start = self.ch.pick(cands.len());
+            for k in 0..cands.len() {
+                let e = &cands[(start + k) % cands.len()];
+                if self.conv(&e.ty, goal) {
+                    self.features.insert("body of a group is one of its definitions");
+                    body = Some(sast::var(&e.name));
+                    break;
+                }
+            }
+        }
+        if body.is_none() && ok {
+            body = self.make(goal, fuel - 1);
+        }
         self.scope.truncate(base);
         self.env = outer_env;
         let body = body?;
@@ -521,6 +581,25 @@ impl<'c, 'd> ProgGen<'c, 'd> {
             self.features.insert("nested group");
         }
         Some(S::Let { defs, body: Box::new(body) })
+    }
+
+    /// `[u : int = 5;] t : type = <goal type>; [u ..;] y : t = <term of the goal type>; [u ..;] y`:
+    /// a group whose type is written with an alias that mentions whatever the goal type mentions.
+    fn alias_group(&mut self, goal: &Rc<V>, fuel: usize) -> Option<S> {
+        let ty = self.quote_s(goal)?;
+        let inner = self.make(goal, fuel.saturating_sub(1))?;
+        let (t, y, u) = (self.fresh_name(), self.fresh_name(), self.fresh_name());
+        let mut defs = vec![
+            Def { name: t.clone(), ann: Some(S::Type), def: ty },
+            Def { name: y.clone(), ann: Some(sast::var(&t)), def: inner },
+        ];
+        let at = self.ch.pick(6);
+        if at <= 2 {
+            let def = if self.ch.chance(1, 2) { sast::lit(5) } else { sast::bin(Op::Mul, sast::lit(2), sast::lit(3)) };
+            defs.insert(at, Def { name: u, ann: Some(S::Int), def });
+        }
+        self.features.insert("group whose type is written with an alias of the goal type");
+        Some(S::Let { defs, body: Box::new(sast::var(&y)) })
     }
 
     fn function_type(&mut self, fuel: usize) -> Option<Rc<V>> {
